@@ -117,7 +117,7 @@ def cases(draw, tier):
         kinds = [draw(st.sampled_from(["sqshift", "fn:exp", "fn:cosh", "pow2"])) for _ in range(nk)]
     point = {nm: draw(st.integers(30, 90)) / 100.0 for nm in NAMES}
     return {"regime": regime, "op": op, "n": n, "thr": thr, "T": T, "kinds": kinds, "convex": convex, "point": point,
-            "wrt": draw(st.sampled_from(["x[0]", "x[1]", "x[3]", "y", "A[0,1]"]))}
+            "wrt": draw(st.sampled_from(["x[0]", "x[1]", "x[3]", "y", "A[0,1]"])), "wrt_fresh": draw(st.integers(0, 3)) == 0}
 
 
 def strategy(tier):
@@ -225,7 +225,12 @@ def _check(case):
         if dL != dB:
             return Result.violation("degree-differs", f"left-deep degree/is_linear {dL}, balanced {dB}; {desc}", classes)
         # 3. symbolic gradient
-        gL, err = guarded("gradient", lambda: gradient(eL, objsL[wrt]))
+        wobj = objsL[wrt]
+        if case.get("wrt_fresh"):
+            from optyx import Variable
+            wobj = Variable(wrt)  # equal by name, different object
+            classes.append("wrt:fresh-object")
+        gL, err = guarded("gradient", lambda: gradient(eL, wobj))
         if err:
             return err
         if jet_ok:
